@@ -17,7 +17,7 @@ theorem killProcesses_si {rec : Rec} (hrec : RecSI rec) (u : Nat) (sig gt : Opti
   intro s h
   unfold killProcesses
   simp only [bind]
-  have hq := quiet_activeProcs u s
+  have hq := squiet_activeProcs u s
   refine awaitMulti_kill_si hrec u sig gt _ .ignore wt rfl _ (activeProcs_s siLeafS u s h) ?_
   intro q hq'
   exact hq.ext.obj q (listed_hasObj h.pid (activeProcs_subset u s q hq'))
@@ -96,11 +96,11 @@ theorem manageTail_si {rec : Rec} (hrec : RecSI rec) (u : Nat) (wt : Waiter) : P
         intro o ho r s' ⟨hs', he', hr'⟩
         unfold mtBody
         simp only [bind]
-        have hq1 := quiet_procStatus o.pid s'
+        have hq1 := squiet_procStatus o.pid s'
         have h1 := procStatus_s siLeafS o.pid s' hs'
         by_cases hd : isDead (procStatus o.pid s').1 = true
         · erw [if_pos hd]
-          have hq2 := quiet_reapProcess u o.pid none (procStatus o.pid s').2
+          have hq2 := squiet_reapProcess u o.pid none (procStatus o.pid s').2
           have e := hq1.trans hq2
           exact ⟨reapProcess_s siLeafS u o.pid none _ h1, fun o' ho' => e.ext.obj _ (he' o' ho'),
             fun q hq => e.ext.obj _ (hr' q hq)⟩
@@ -151,7 +151,7 @@ theorem spawnTry_si {rec : Rec} (hrec : RecSI rec) (u n : Nat) : Pres SI (spawnT
       | some pid =>
         dsimp only
         have ho1 : HasObj s1 pid := ho pid rfl
-        have hq2 := quiet_callHook u "after_spawn" s1
+        have hq2 := squiet_callHook u "after_spawn" s1
         have h2 := callHook_s siLeafS u "after_spawn" s1 h1
         generalize callHook u "after_spawn" s1 = r2 at hq2 h2 ⊢
         obtain ⟨rv, s2⟩ := r2
@@ -208,7 +208,7 @@ theorem reloadSeqStart_si {rec : Rec} (hrec : RecSI rec) (u : Nat) (wt : Waiter)
   intro s h
   unfold reloadSeqStart
   simp only [bind]
-  have hq := quiet_activeProcs u s
+  have hq := squiet_activeProcs u s
   refine hrec.run _ _ (activeProcs_s siLeafS u s h) ⟨?_, fun p hp => by cases hp⟩
   intro q hq'
   exact hq.ext.obj q (listed_hasObj h.pid (activeProcs_subset u s q hq'))
@@ -236,7 +236,7 @@ theorem reloadSeqAfterKill_si {rec : Rec} (hrec : RecSI rec) (u pid : Nat) (rest
     (hr : ∀ q ∈ rest, HasObj s q) : SI (reloadSeqAfterKill rec u pid rest wt s).2 := by
   unfold reloadSeqAfterKill
   simp only [bind]
-  have hq1 := quiet_reapProcess u pid none s
+  have hq1 := squiet_reapProcess u pid none s
   have h1 := reapProcess_s siLeafS u pid none s h
   have h2 := spawnProcess_si hrec u _ h1
   have hr2 : ∀ q ∈ rest, HasObj (spawnProcess rec u (reapProcess u pid none s).2).2 q :=
